@@ -56,6 +56,11 @@ def rows_of(res, shift=None):
     for tt, yy in zip(res["t"], res["y"]):
         out.append(num.frac(tt))
         out.append(num.canon_bytes(yy))
+    for mm in res.get("mids", []):
+        out.append(num.canon_bytes(mm))
+    for (te, ye) in res.get("events", []):
+        out.append(num.frac(te))
+        out.append(num.canon_bytes(ye))
     return out
 
 
